@@ -10,6 +10,9 @@ CHECKS = {
  "C03": ("exhaustive enumeration of operator chains against a precedence-climbing reference",
          "Every chain of k operators over all 19 spellings (k<=3 quick, k<=5 thorough) with every single parenthesised sub-chain and every set of <=1 (2) negated operands is parsed by the real ParseExpr and compared structurally with an independent precedence-climbing reference; the printed tree is re-parsed and compared. Exhaustive inside the bound, nothing sampled.",
          "Trusts the reference climber (40 lines) and astx structural comparison. Says nothing about chains longer than the bound.", "3/C03"),
+ "C08": ("exhaustive enumeration of duration spellings and values against math/big",
+         "ParseDuration is run on every 1-, 2- and 3-component spelling over a per-unit boundary ladder (around MaxInt64/unit and 2^64/unit, both signs) and compared with exact big-integer sums; FormatDuration on every nanosecond value in a dense interval around zero and on every k*unit, k*unit±1 of the ladder; the same spellings as literals in 17 statement slots. Exhaustive inside the stated alphabets.",
+         "Trusts math/big. Magnitudes between the ladder points are not visited; a rejected in-range spelling is not counted as a violation (C01 covers acceptance).", "3/C08"),
 }
 ALL = ["C%02d" % i for i in range(1, 21)]
 NOT_YET = "check not built yet in this revision of /verif (work in progress; see DESIGN.md section 3 for the planned bounded-exhaustive check)"
